@@ -42,6 +42,18 @@ def gen_mx(repo):
     s = strip_comments(read(repo, rel))
     c['ROUTE_DEFAULT_PORT'] = allsame(r'\*targetport\s*=\s*(\d+)\s*;', s, 'smtproutes.c default port', 2)
     c['ROUTE_PORT_LIMIT'] = one(r'\*targetport\s*>=\s*(\d+)\s*\)', s, 'smtproutes.c port limit')
+    fn = one(r'char\s+fnbuf\[\s*DOMAINNAME_MAX\s*\+\s*(\d+)\s*\]\s*;', s, 'smtproutes.c fnbuf size')
+    dm = one(r'#define\s+DOMAINNAME_MAX\s+(\d+)', h, 'qdns.h DOMAINNAME_MAX')
+    c['ROUTE_FNBUF_SIZE'] = str(int(dm) + int(fn))
+    if not re.search(r"fnbuf\[0\]\s*=\s*'\*'\s*;\s*strcpy\(\s*fnbuf\s*\+\s*1\s*,\s*dot\s*\)\s*;", s):
+        raise TranslateError('smtproutes.c: construction of the wildcard file name not found')
+    if not re.search(r'fn\s*=\s*"default"\s*;', s):
+        raise TranslateError('smtproutes.c: default file name not found')
+    pp = subprocess.run(['gcc', '-E', '-P', '-'], input=b'#include <limits.h>\nXXVAL NAME_MAX\n', stdout=subprocess.PIPE, stderr=subprocess.DEVNULL)
+    mm2 = re.search(r'XXVAL\s+(\d+)', pp.stdout.decode('latin-1'))
+    if not mm2:
+        raise TranslateError('NAME_MAX: cannot evaluate with gcc -E')
+    c['SYS_NAME_MAX'] = mm2.group(1)
     tags = one(r'static\s+const\s+char\s*\*\s*tags\[\]\s*=\s*\{(.*?)\}\s*;', s, 'smtproutes.c tags[]', re.S)
     taglist = re.findall(r'"([^"]*)"', tags)
     if not taglist or not re.search(r',\s*NULL\s*$', tags.strip()):
